@@ -1,39 +1,88 @@
 package main
 
 import (
+	"math"
+
 	"github.com/bradenaw/juniper/container/xlist"
 )
 
 func init() { components["xlist"] = runXList }
 
-// Observation after every op: [panic, fwd, bwd, len, vals, frontPrevNil, backNextNil, removedIsolated].
+// Observation after every op: [panic, fwd, bwd, len, vals, frontPrevNil, backNextNil, detachedIsolated]
+// (detachedIsolated: every handle handed out so far that the forward walk does not reach has no neighbour;
+// a walk starting with 777777 means that a "new" node was a handle handed out earlier).
+// The same history is run on List[int], on List[any] (values that are nil, or of a dynamic type that cannot be
+// compared: a slice) and on List[float64] (NaN values), chosen by cfg "inst": the behaviour of a list must not depend
+// on what its Values are or on whether they can be compared.
 func runXList(c *Case) *Obs {
-	var l xlist.List[int]
-	var nodes []*xlist.Node[int]
-	id := map[*xlist.Node[int]]int{}
+	inst, _ := c.Cfg["inst"].(string)
+	switch inst {
+	case "any":
+		return runXListT[any](c, func(v int) any {
+			switch ((v % 3) + 3) % 3 {
+			case 0:
+				return []int{v}
+			case 1:
+				return nil
+			}
+			return v
+		}, func(x any, v int) bool {
+			switch ((v % 3) + 3) % 3 {
+			case 0:
+				sl, ok := x.([]int)
+				return ok && len(sl) == 1 && sl[0] == v
+			case 1:
+				return x == nil
+			}
+			return x == any(v)
+		})
+	case "float":
+		return runXListT[float64](c, func(v int) float64 {
+			if v%2 == 0 {
+				return math.NaN()
+			}
+			return float64(v)
+		}, func(x float64, v int) bool {
+			if v%2 == 0 {
+				return math.IsNaN(x)
+			}
+			return x == float64(v)
+		})
+	}
+	return runXListT[int](c, func(v int) int { return v }, func(x int, v int) bool { return x == v })
+}
+
+func runXListT[T any](c *Case, mk func(int) T, same func(T, int) bool) *Obs {
+	var l xlist.List[T]
+	var nodes []*xlist.Node[T]
+	var given []int
+	id := map[*xlist.Node[T]]int{}
 	o := &Obs{}
-	alloc := func(n *xlist.Node[int]) {
+	aliased := false
+	alloc := func(n *xlist.Node[T], v int) {
+		given = append(given, v)
+		if _, dup := id[n]; dup {
+			aliased = true // a "new" node that is a handle handed out earlier: handles do not keep their identity
+		}
 		id[n] = len(nodes)
 		nodes = append(nodes, n)
 	}
-	h := func(a any) *xlist.Node[int] { return nodes[num(a)] }
+	h := func(a any) *xlist.Node[T] { return nodes[num(a)] }
 	for _, op := range c.Ops {
 		name := op[0].(string)
 		iso := true
 		p, _ := protect(func() {
 			switch name {
 			case "pushfront":
-				alloc(l.PushFront(num(op[1])))
+				alloc(l.PushFront(mk(num(op[1]))), num(op[1]))
 			case "pushback":
-				alloc(l.PushBack(num(op[1])))
+				alloc(l.PushBack(mk(num(op[1]))), num(op[1]))
 			case "insertbefore":
-				alloc(l.InsertBefore(num(op[1]), h(op[2])))
+				alloc(l.InsertBefore(mk(num(op[1])), h(op[2])), num(op[1]))
 			case "insertafter":
-				alloc(l.InsertAfter(num(op[1]), h(op[2])))
+				alloc(l.InsertAfter(mk(num(op[1])), h(op[2])), num(op[1]))
 			case "remove":
-				n := h(op[1])
-				l.Remove(n)
-				iso = n.Prev() == nil && n.Next() == nil
+				l.Remove(h(op[1]))
 			case "movebefore":
 				l.MoveBefore(h(op[1]), h(op[2]))
 			case "moveafter":
@@ -61,7 +110,11 @@ func runXList(c *Case) *Obs {
 				break
 			}
 			fwd = append(fwd, id[n])
-			vals = append(vals, n.Value)
+			if i, ok := id[n]; ok && i < len(given) && same(n.Value, given[i]) {
+				vals = append(vals, given[i])
+			} else {
+				vals = append(vals, -987654321) // the Value is not the one the node was created with
+			}
 			k++
 		}
 		bwd := []int{}
@@ -73,6 +126,19 @@ func runXList(c *Case) *Obs {
 			}
 			bwd = append(bwd, id[n])
 			k++
+		}
+		// every handle that is not in the list (removed by Remove or dropped by Clear) has neither neighbour
+		member := map[*xlist.Node[T]]bool{}
+		for n, k := l.Front(), 0; n != nil && k < limit; n, k = n.Next(), k+1 {
+			member[n] = true
+		}
+		for _, n := range nodes {
+			if !member[n] && (n.Prev() != nil || n.Next() != nil) {
+				iso = false
+			}
+		}
+		if aliased {
+			fwd = append([]int{777777}, fwd...)
 		}
 		fp := l.Front() == nil || l.Front().Prev() == nil
 		bn := l.Back() == nil || l.Back().Next() == nil
